@@ -643,6 +643,23 @@ def check_selection(prog, rep, fs, entry_of, pubname='zone_ids'):
                 rep.add('Z-select', fv, entry_of(f), norm(c_)[:120], c_.lineno, False,
                         'an id is selected iff it is a member of the requested ids, and the rows come out ascending, once each: this picks '
                         'the rows request by request, in the caller\'s order and as often as an id is repeated')
+        # "no request" is `None`, and only `None`: an empty request selects nothing.  A truthiness test of the requested ids
+        # treats `[]` like an absent request (every zone / category is reported) and raises for an array of ids.
+        def truth_uses(t_):
+            if isinstance(t_, ast.Name) and t_.id in names:
+                return [t_]
+            if isinstance(t_, ast.UnaryOp) and isinstance(t_.op, ast.Not):
+                return truth_uses(t_.operand)
+            if isinstance(t_, ast.BoolOp):
+                return [u for v_ in t_.values for u in truth_uses(v_)]
+            return []
+        for node in fv.own_nodes():
+            if isinstance(node, (ast.If, ast.While, ast.IfExp)):
+                for u in truth_uses(node.test):
+                    n += 1
+                    rep.add('Z-select', fv, entry_of(f), 'truth value of `%s` in `%s`' % (u.id, norm(node.test)[:80]), node.lineno, False,
+                            'an absent request is `None`; an empty list of ids is a request that selects nothing - tested for '
+                            'truthiness it is treated like an absent one and every zone / category is reported')
         for node in fv.own_nodes():
             tests = []
             if isinstance(node, (ast.If, ast.While)):
